@@ -211,7 +211,7 @@ class HistRunner:
             return entry, anoms, None
         # ---- model
         m_before = m.copy()
-        ok, ctx = m.command(list(targets), forced=forced, keep=keep, obs=set(ex), obsn=dict(ex), parallel=(j > 1))
+        ok, ctx = m.command(list(targets), forced=forced, keep=keep, obs=set(ex), obsn=dict(ex), parallel=(j > 1), abort_mode=(j > 1 and not keep and r.rc != 0))
         def missing_runs(ctx):
             # (target, reason) of model executions that the observation does not have (multiset difference)
             out = []
@@ -235,7 +235,7 @@ class HistRunner:
                 if d in m.R[dn].seen:
                     m.R[dn].seen[d] = m.ver(d)
             self.late = set()
-            ok, ctx = m.command(list(targets), forced=forced, keep=keep, obs=set(ex), obsn=dict(ex), parallel=(j > 1))
+            ok, ctx = m.command(list(targets), forced=forced, keep=keep, obs=set(ex), obsn=dict(ex), parallel=(j > 1), abort_mode=(j > 1 and not keep and r.rc != 0))
             anoms.append(Anomaly(cls='underbuild', key='underbuild:forced-rebuild-after-check-in-same-run-not-seen-by-dependents',
                                  cont=True, target=late_hits[0][0],
                                  what='%s was not rebuilt although %s was force-rebuilt (redo) in a run that had already checked one of them'
@@ -260,7 +260,9 @@ class HistRunner:
             self.stats['failing_commands'] += 1
         # each target at most once per run
         for n, c in ex.items():
-            if c > max(1, ctx['ran'].count(n)):
+            if c > max(1, ctx['ran'].count(n)) and not (j > 1 and m.tainted(n)):
+                # (a target built from a failure it tolerates is dirty again whenever it is looked at in the same run; a second
+                #  requester that waited for its lock re-runs it: the same may-run as in the serial case, see Model.update)
                 anoms.append(Anomaly(cls='multi', key='multi:%s' % kinds_of(p, n), target=n,
                                      what='%s executed %d times in one run' % (n, c)))
         for n, pids, pid2 in overlaps(recs):
